@@ -115,21 +115,20 @@ func c06Range(args []string, n int) (int, int) {
 
 func c06RenderWorker(args []string) {
 	c06LimitMemory()
-	var cases []c06Render
-	c06Load(args[0], &cases)
-	start, end := c06Range(args, len(cases))
+	var in c06RenderInput
+	c06Load(args[0], &in)
+	start, end := c06Range(args, len(in.Cases))
 	out := bufio.NewWriter(os.Stdout)
-	lastKey := ""
+	last := -1
 	var tofu *soyhtml.Tofu
 	var cerr error
 	for i := start; i < end; i++ {
 		fmt.Fprintf(out, "S %d\n", i)
 		out.Flush()
-		c := cases[i]
-		key := fmt.Sprint(c.Files)
-		if key != lastKey {
-			tofu, cerr = compile(c.Files)
-			lastKey = key
+		c := in.Cases[i]
+		if c.Bundle != last {
+			tofu, cerr = compile(in.Bundles[c.Bundle])
+			last = c.Bundle
 		}
 		res := ""
 		switch {
@@ -459,69 +458,103 @@ func tail(s string, n int) string {
 }
 
 // c06Run runs all cases; a hang is re-confirmed by running the case alone with
-// twice the timeout.  risky[i] marks cases of a class that is known to be able
-// to hang (they run alone; after two confirmed hangs of one class the rest of
-// the class is skipped, to keep a run on a defective tree short).
-func c06Run(e *env, kind string, cases interface{}, n int, perCase time.Duration, risky []string) []c06Res {
+// twice the timeout.  risky[i] names the class of a case that is known to be
+// able to hang (those run alone, from their own small case file; after two
+// confirmed hangs of one class the rest of the class is skipped, to keep a run
+// on a defective tree short).  marshal serialises the cases with the given
+// indices, in that order, as the worker's input.
+func c06Run(e *env, kind string, n int, marshal func(idx []int) []byte, perCase time.Duration, risky []string) []c06Res {
 	res := make([]c06Res, n)
-	bs, _ := json.Marshal(cases)
-	f, err := os.CreateTemp(c06Tmp(e), "c06-"+kind+"-*.json")
-	if err != nil {
-		e.res.Note("cannot create case file: %v", err)
-		return res
+	var plain, alone []int
+	for i := 0; i < n; i++ {
+		if risky != nil && risky[i] != "" {
+			alone = append(alone, i)
+		} else {
+			plain = append(plain, i)
+		}
 	}
-	f.Write(bs)
-	f.Close()
-	defer os.Remove(f.Name())
-	confirm := func(i int) {
-		if res[i].Status != "hang" {
+	runSet := func(idx []int, each bool) {
+		if len(idx) == 0 {
 			return
 		}
-		one := make([]c06Res, n)
-		c06RunRange(e, kind, f.Name(), i, i+1, 2*perCase, one)
-		if one[i].Status == "done" {
-			res[i] = one[i]
+		f, err := os.CreateTemp(c06Tmp(e), "c06-"+kind+"-*.json")
+		if err != nil {
+			e.res.Note("cannot create case file: %v", err)
+			return
 		}
-	}
-	// the ordinary cases in batches
-	start := 0
-	for start < n {
-		// next maximal run of non-risky cases
-		if risky != nil && risky[start] != "" {
-			start++
-			continue
+		f.Write(marshal(idx))
+		f.Close()
+		defer os.Remove(f.Name())
+		sub := make([]c06Res, len(idx))
+		confirm := func(k int) {
+			if k < 0 || k >= len(idx) || sub[k].Status != "hang" {
+				return
+			}
+			one := make([]c06Res, len(idx))
+			c06RunRange(e, kind, f.Name(), k, k+1, 2*perCase, one)
+			if one[k].Status == "done" {
+				sub[k] = one[k]
+			}
 		}
-		end := start
-		for end < n && (risky == nil || risky[end] == "") {
-			end++
-		}
-		for start < end {
-			next := c06RunRange(e, kind, f.Name(), start, end, perCase, res)
-			if next-1 >= 0 && next-1 < n {
+		if !each {
+			for start := 0; start < len(idx); {
+				next := c06RunRange(e, kind, f.Name(), start, len(idx), perCase, sub)
 				confirm(next - 1)
+				start = next
 			}
-			start = next
-		}
-	}
-	// the risky ones, alone
-	if risky != nil {
-		hangs := map[string]int{}
-		for i := 0; i < n; i++ {
-			if risky[i] == "" {
-				continue
-			}
-			if hangs[risky[i]] >= 2 {
-				res[i] = c06Res{Status: "skipped"}
-				continue
-			}
-			c06RunRange(e, kind, f.Name(), i, i+1, perCase, res)
-			confirm(i)
-			if res[i].Status == "hang" || res[i].Status == "fatal" {
-				hangs[risky[i]]++
+		} else {
+			hangs := map[string]int{}
+			for k, i := range idx {
+				if hangs[risky[i]] >= 2 {
+					sub[k] = c06Res{Status: "skipped"}
+					continue
+				}
+				c06RunRange(e, kind, f.Name(), k, k+1, perCase, sub)
+				confirm(k)
+				if sub[k].Status == "hang" || sub[k].Status == "fatal" {
+					hangs[risky[i]]++
+				}
 			}
 		}
+		for k, i := range idx {
+			res[i] = sub[k]
+		}
 	}
+	runSet(plain, false)
+	runSet(alone, true)
 	return res
+}
+
+// the worker input of the render family: bundles are stored once
+type c06RenderInput struct {
+	Bundles [][]srcFile `json:"bundles"`
+	Cases   []c06RenderRef `json:"cases"`
+}
+type c06RenderRef struct {
+	Bundle   int    `json:"b"`
+	Template string `json:"t"`
+	Data     string `json:"d"`
+	Ij       string `json:"ij"`
+}
+
+func c06MarshalRenders(cases []c06Render) func(idx []int) []byte {
+	return func(idx []int) []byte {
+		var in c06RenderInput
+		seen := map[string]int{}
+		for _, i := range idx {
+			c := cases[i]
+			key := fmt.Sprint(c.Files)
+			b, ok := seen[key]
+			if !ok {
+				b = len(in.Bundles)
+				seen[key] = b
+				in.Bundles = append(in.Bundles, c.Files)
+			}
+			in.Cases = append(in.Cases, c06RenderRef{Bundle: b, Template: c.Template, Data: c.Data, Ij: c.Ij})
+		}
+		bs, _ := json.Marshal(in)
+		return bs
+	}
 }
 
 // ---------------------------------------------------------------------------
@@ -571,6 +604,16 @@ func c06ExprHook(g *progGen, env genv, k kind, d int) (string, bool) {
 		var as []string
 		for i := 0; i < n; i++ {
 			as = append(as, g.c06Arg(env))
+		}
+		if name == "index" || name == "isFirst" || name == "isLast" {
+			// the compiler demands the variable of an enclosing loop as (first) argument
+			if len(env.loops) == 0 {
+				name = "keys"
+			} else if len(as) == 0 {
+				as = []string{"$" + env.loops[g.r.Intn(len(env.loops))]}
+			} else {
+				as[0] = "$" + env.loops[g.r.Intn(len(env.loops))]
+			}
 		}
 		return name + "(" + strings.Join(as, ", ") + ")", true
 	case 4:
@@ -773,12 +816,12 @@ func c06EnumData() data.Map {
 var c06VarAtoms = []string{"$u", "$n", "$b", "$i", "$z", "$f", "$s", "$e", "$l", "$m", "null", "'lit'", "[]", "-1", "2"}
 var c06BinOps = []string{"*", "/", "%", "+", "-", "==", "!=", ">", ">=", "<", "<=", "or", "and", "?:"}
 
-// enumTemplates packs print-one-expression templates into bundles of at most 100.
-func c06EnumBundles(tag string, bodies []string) []c06Plan {
+// enumTemplates packs print-one-expression templates into bundles of at most 40.
+func c06EnumBundles(tag string, bodies []string, size int) []c06Plan {
 	var plans []c06Plan
 	dsx := valueSexp(c06EnumData(), newIDTable())
-	for off := 0; off < len(bodies); off += 100 {
-		end := off + 100
+	for off := 0; off < len(bodies); off += size {
+		end := off + size
 		if end > len(bodies) {
 			end = len(bodies)
 		}
@@ -816,14 +859,17 @@ func c06Enumerations(e *env) []c06Plan {
 		}
 	}
 	for _, a := range c06VarAtoms {
-		bodies = append(bodies, "{-"+a+"}", "{not "+a+"}", "{"+a+" ? 1 : 2}", "{"+a+"}", "{css "+a+", x}",
+		bodies = append(bodies, "{-("+a+")}", "{not "+a+"}", "{"+a+" ? 1 : 2}", "{"+a+"}", "{css "+a+", x}",
 			"{foreach $q in "+a+"}[{$q}]{ifempty}E{/foreach}", "{switch "+a+"}{case 7, 'lit'}A{case null}N{default}D{/switch}",
-			"{call .t0 data=\""+a+"\" /}", "{let $q: "+a+" /}{$q}{$q.a}", "{msg desc=\"\"}{plural "+a+"}{case 0}z{case 7}seven{default}d{/plural}{/msg}")
+			"{call .t0 data=\""+strings.TrimPrefix(a, "-")+"\" /}", "{let $q: "+a+" /}{$q}{$q.a}", "{msg desc=\"\"}{plural "+a+"}{case 0}z{case 7}seven{default}d{/plural}{/msg}")
 	}
-	plans = append(plans, c06EnumBundles("enum-ops", bodies)...)
+	plans = append(plans, c06EnumBundles("enum-ops", bodies, 40)...)
 	// functions x argument counts x kinds
 	bodies = nil
 	for _, fn := range c06FuncNames {
+		if fn == "index" || fn == "isFirst" || fn == "isLast" {
+			continue
+		}
 		bodies = append(bodies, "{"+fn+"()}")
 		for _, a := range c06VarAtoms {
 			bodies = append(bodies, "{"+fn+"("+a+")}")
@@ -846,14 +892,24 @@ func c06Enumerations(e *env) []c06Plan {
 	for _, br := range c06BadRanges {
 		bodies = append(bodies, "{foreach $q in "+br+"}{$q},{/foreach}", "{length("+br+")}")
 	}
-	// loop functions inside loops, on the right and on the wrong variable
+	// loop functions on the variable of an enclosing loop (the only form the compiler accepts), with extra arguments
 	for _, fn := range []string{"index", "isFirst", "isLast"} {
-		for _, arg := range []string{"$q", "$s", "$l", "$u", "1", "$q, 1", "", "$q.a", "'q'"} {
+		for _, arg := range []string{"$q", "$q, 1", "$q, $u, $l"} {
+			bodies = append(bodies, "{foreach $q in $l}{"+fn+"("+arg+")}{/foreach}", "{foreach $q in [1]}{"+fn+"("+arg+")}{ifempty}E{/foreach}")
+		}
+		bodies = append(bodies, "{foreach $q in $l}{foreach $p in [1,2]}{"+fn+"($q)}{"+fn+"($p)}{/foreach}{/foreach}",
+			"{foreach $q in $l}{let $q: 5 /}{"+fn+"($q)}{/foreach}", "{foreach $q in $l}{foreach $q in ['x']}{"+fn+"($q)}{/foreach}{"+fn+"($q)}{/foreach}")
+	}
+	plans = append(plans, c06EnumBundles("enum-funcs", bodies, 40)...)
+	// ... and on anything else: rejected by the compiler (each in its own bundle), never a panic
+	bodies = nil
+	for _, fn := range []string{"index", "isFirst", "isLast"} {
+		for _, arg := range []string{"$s", "$l", "$u", "1", "", "$q.a", "'q'", "$q + 1"} {
 			bodies = append(bodies, "{foreach $q in $l}{"+fn+"("+arg+")}{/foreach}")
 		}
-		bodies = append(bodies, "{foreach $q in $l}{foreach $p in [1,2]}{"+fn+"($q)}{"+fn+"($p)}{/foreach}{/foreach}")
+		bodies = append(bodies, "{"+fn+"($l)}", "{foreach $q in $l}x{/foreach}{"+fn+"($q)}")
 	}
-	plans = append(plans, c06EnumBundles("enum-funcs", bodies)...)
+	plans = append(plans, c06EnumBundles("enum-loopfn-rejected", bodies, 1)...)
 	// directives x value kinds x arguments
 	bodies = nil
 	dargs := []string{"0", "1", "3", "-1", "100", "'a'", "true", "false", "null", "1.5", "$u", "$l", "$i"}
@@ -869,7 +925,7 @@ func c06Enumerations(e *env) []c06Plan {
 			bodies = append(bodies, "{"+v+"|"+dn+":1,true,3}", "{"+v+"|"+dn+"|"+e.rng.Pick(c06DirNames)+"}")
 		}
 	}
-	plans = append(plans, c06EnumBundles("enum-directives", bodies)...)
+	plans = append(plans, c06EnumBundles("enum-directives", bodies, 40)...)
 	// data-bounded recursion: a tree walk and a countdown, errors deep inside nested calls
 	rec := "{namespace rec}\n\n/**\n * @param? kids\n * @param? v\n */\n{template .tree}\n({$v}{foreach $k in $kids}{call .tree data=\"$k\" /}{/foreach})\n{/template}\n\n" +
 		"/**\n * @param n\n * @param? bad\n */\n{template .down}\n{if $n > 0}{$n},{call .down}{param n: $n - 1 /}{param bad: $bad /}{/call}{else}{if $bad}{1 % 0}{/if}end{/if}\n{/template}\n\n" +
@@ -964,26 +1020,25 @@ func c06CompileReg(files []srcFile) (rg *template.Registry, err error) {
 }
 
 func c06RunRenderPlans(e *env, plans []c06Plan, perCase time.Duration) {
-	// ---- parent: compile for the model ----
-	regKeys := map[string]string{}
+	// ---- parent: compile for the model (the registry is loaded in the model's request
+	// stream right before its renders, under one key, so that the model keeps one at a time) ----
+	regSexp := map[string]string{}
 	for i := range plans {
 		key := fmt.Sprint(plans[i].c.Files)
-		rk, seen := regKeys[key]
+		sx, seen := regSexp[key]
 		if !seen {
-			rk = ""
+			sx = ""
 			rg, err := c06CompileReg(plans[i].c.Files)
 			if err == nil {
-				rk = fmt.Sprintf("c06reg%d", len(regKeys))
-				if r := e.m.Call("load_registry", rk, registrySexp(rg, newIDTable())); len(r) == 0 || r[0] != "#1" {
-					e.res.Fail(hx.Violation{Kind: "mismatch", What: "model cannot load the registry", Case: plans[i].c, Observed: fmt.Sprint(r)}, "")
-					rk = ""
-				}
+				sx = registrySexp(rg, newIDTable())
 			} else if isPanicErr(err) {
 				e.res.Fail(hx.Violation{Kind: "oracle", What: "panic escaped Bundle.Compile", Case: plans[i].c, Observed: err.Error()}, "")
 			}
-			regKeys[key] = rk
+			regSexp[key] = sx
 		}
-		plans[i].reg = rk
+		if sx != "" {
+			plans[i].reg = key
+		}
 	}
 	// ---- implementation, in workers ----
 	cases := make([]c06Render, len(plans))
@@ -992,14 +1047,19 @@ func c06RunRenderPlans(e *env, plans []c06Plan, perCase time.Duration) {
 		cases[i] = p.c
 		risky[i] = p.risky
 	}
-	res := c06Run(e, "c06render", cases, len(cases), perCase, risky)
+	res := c06Run(e, "c06render", len(cases), c06MarshalRenders(cases), perCase, risky)
 	// ---- model ----
 	var reqs []string
 	reqIx := make([]int, len(plans))
+	loaded := ""
 	for i, p := range plans {
 		reqIx[i] = -1
 		if p.reg == "" {
 			continue
+		}
+		if p.reg != loaded {
+			reqs = append(reqs, "load_registry c06 "+regSexp[p.reg])
+			loaded = p.reg
 		}
 		d := p.c.Data
 		if d == "nil" {
@@ -1010,7 +1070,10 @@ func c06RunRenderPlans(e *env, plans []c06Plan, perCase time.Duration) {
 			ij = "none"
 		}
 		reqIx[i] = len(reqs)
-		reqs = append(reqs, strings.Join([]string{"render", p.reg, sx(p.c.Template), c06Fuel, "none", "none", "-", ij, ";", d}, " "))
+		reqs = append(reqs, strings.Join([]string{"render", "c06", sx(p.c.Template), c06Fuel, "none", "none", "-", ij, ";", d}, " "))
+	}
+	if d := os.Getenv("C06_DUMP"); d != "" {
+		os.WriteFile(d, []byte(strings.Join(reqs, "\n")+"\n"), 0o644)
 	}
 	resp := e.m.Batch(reqs)
 	// ---- compare ----
@@ -1049,6 +1112,9 @@ func c06RunRenderPlans(e *env, plans []c06Plan, perCase time.Duration) {
 			continue
 		case cls == "cerror":
 			e.res.Histogram["compile-rejected:"+p.c.Tag]++
+			if os.Getenv("C06_CERR") != "" {
+				fmt.Fprintln(os.Stderr, "CERR", p.c.Tag, hx.UnH(fields[1]))
+			}
 			continue
 		}
 		if reqIx[i] < 0 {
@@ -1152,7 +1218,14 @@ func c06Exprs(e *env, perCase time.Duration) {
 			risky[i] = c06RiskOf([]srcFile{{Text: c.Text}})
 		}
 	}
-	res := c06Run(e, "c06expr", cs, len(cs), perCase, risky)
+	res := c06Run(e, "c06expr", len(cs), func(idx []int) []byte {
+		sub := make([]c06Expr, len(idx))
+		for k, i := range idx {
+			sub[k] = cs[i]
+		}
+		bs, _ := json.Marshal(sub)
+		return bs
+	}, perCase, risky)
 	var reqs []string
 	reqIx := make([]int, len(cs))
 	for i := range cs {
@@ -1282,7 +1355,14 @@ func c06GlobInputs(e *env) []c06Glob {
 
 func c06Globals(e *env, perCase time.Duration) {
 	cs := c06GlobInputs(e)
-	res := c06Run(e, "c06glob", cs, len(cs), perCase, nil)
+	res := c06Run(e, "c06glob", len(cs), func(idx []int) []byte {
+		sub := make([]c06Glob, len(idx))
+		for k, i := range idx {
+			sub[k] = cs[i]
+		}
+		bs, _ := json.Marshal(sub)
+		return bs
+	}, perCase, nil)
 	var reqs []string
 	reqIx := make([]int, len(cs))
 	for i := range cs {
@@ -1372,7 +1452,13 @@ func c06VmToPairs(s string) string {
 	return "(" + strings.TrimSpace(rest[sp:])
 }
 
-func c06GlobCanon(s string) string { return canonIDs(strings.Join(strings.Fields(s), " "), 1) }
+// identities of the collections are not compared: every EvalExpr call of the model numbers
+// its fresh lists and maps from the same start, so two lines' values may share a number
+var c06IDRe = regexp.MustCompile(`\((vl|vm) \d+`)
+
+func c06GlobCanon(s string) string {
+	return c06IDRe.ReplaceAllString(strings.Join(strings.Fields(s), " "), "($1 _")
+}
 
 // ---------------------------------------------------------------------------
 // the range loop itself: model of the repaired loop against the real funcRange
@@ -1472,7 +1558,7 @@ func c06Replay(e *env) {
 }
 
 func c06ReplayExpr(e *env, c c06Expr, perCase time.Duration) {
-	res := c06Run(e, "c06expr", []c06Expr{c}, 1, perCase, nil)
+	res := c06Run(e, "c06expr", 1, func([]int) []byte { bs, _ := json.Marshal([]c06Expr{c}); return bs }, perCase, nil)
 	e.res.Count("expr:"+c.Text, true, "evalexpr:replay")
 	f := strings.Fields(res[0].Out)
 	switch {
@@ -1484,7 +1570,7 @@ func c06ReplayExpr(e *env, c c06Expr, perCase time.Duration) {
 }
 
 func c06ReplayGlob(e *env, c c06Glob, perCase time.Duration) {
-	res := c06Run(e, "c06glob", []c06Glob{c}, 1, perCase, nil)
+	res := c06Run(e, "c06glob", 1, func([]int) []byte { bs, _ := json.Marshal([]c06Glob{c}); return bs }, perCase, nil)
 	e.res.Count("glob:"+c.Input, true, "globals:replay")
 	f := strings.Fields(res[0].Out)
 	switch {
